@@ -171,7 +171,7 @@ pub fn gen_acyclic(r: &mut Rng, c: &GenCfg) -> Program {
         kinds[i] = kind;
         nodes.push(Node { kind, ops });
     }
-    Program { m, n_inputs, n_cells, nodes, fb_base: 0 }
+    Program { m, n_inputs, n_cells, nodes, fb_base: 0, blk_lo: 0, blk_hi: 0, bad_guard: None }
 }
 
 #[derive(Clone, Debug)]
@@ -282,4 +282,127 @@ pub fn gen_history(r: &mut Rng, p: &Program, c: &HistCfg) -> Vec<Step> {
         out.push(step);
     }
     out
+}
+
+#[derive(Clone, Debug)]
+pub struct CycCfg {
+    pub below: (usize, usize),
+    pub block: (usize, usize),
+    pub above: (usize, usize),
+    pub ops: (usize, usize),
+    /// kinds of block nodes (weighted)
+    pub block_kinds: Vec<(Kind, u32)>,
+    pub outer_kinds: Vec<(Kind, u32)>,
+    pub back_edge_pct: u32,
+    pub bad: bool,
+    pub untracked_in_block: bool,
+    pub yields: bool,
+}
+
+impl CycCfg {
+    pub fn base() -> Self {
+        CycCfg {
+            below: (0, 2),
+            block: (1, 5),
+            above: (0, 2),
+            ops: (2, 7),
+            block_kinds: vec![(Kind::Fix, 3), (Kind::FixJ, 1)],
+            outer_kinds: vec![(Kind::Plain, 4), (Kind::NoEq, 1)],
+            back_edge_pct: 45,
+            bad: false,
+            untracked_in_block: false,
+            yields: false,
+        }
+    }
+}
+
+/// Cyclic program over a bit-set lattice (m = 16). Block nodes have monotone bodies in the
+/// values of block callees: a register that (possibly) holds a block-derived value is "tainted"
+/// and may only flow through Or/And/Ret; branches and dynamic-call indices read untainted
+/// registers only, so the shape of the call graph depends on inputs alone.
+pub fn gen_cyclic(r: &mut Rng, c: &CycCfg) -> Program {
+    let m = 16u32;
+    let n_inputs = r.range(1, 3);
+    let n_cells = if c.untracked_in_block { 1 } else { 0 };
+    let nb = r.range(c.below.0, c.below.1);
+    let nk = r.range(c.block.0, c.block.1);
+    let na = r.range(c.above.0, c.above.1);
+    let (lo, hi) = (nb, nb + nk);
+    let n = nb + nk + na;
+    let mut nodes: Vec<Node> = vec![];
+    let bad_node = if c.bad { lo + r.usize(nk) } else { usize::MAX };
+    let bad_guard = if c.bad { Some((r.usize(n_inputs) as u16, r.usize(3) as u8, bad_node as u16)) } else { None };
+    for i in 0..n {
+        let in_block = i >= lo && i < hi;
+        let kind = if in_block { pick_kind(r, &c.block_kinds) } else { pick_kind(r, &c.outer_kinds) };
+        let n_ops = r.range(c.ops.0, c.ops.1);
+        let mut ops = vec![];
+        let mut tainted = [false; NREG];
+        // callable targets
+        let lower: Vec<u16> = (0..i.min(if in_block { lo } else { i })).map(|j| j as u16).collect();
+        let block_all: Vec<u16> = (lo..hi).map(|j| j as u16).collect();
+        let block_fwd: Vec<u16> = (lo..i.min(hi)).map(|j| j as u16).collect();
+        for _ in 0..n_ops {
+            let d = r.usize(NREG) as u8;
+            let roll = r.below(100);
+            let untainted: Vec<u8> = (0..NREG as u8).filter(|x| !tainted[*x as usize]).collect();
+            let op = match roll {
+                0..=19 => Op::In { d, i: r.usize(n_inputs) as u16, f: r.usize(3) as u8 },
+                20..=49 if in_block => {
+                    // call inside the block: forward (lower index) or back edge
+                    let t = if r.pct(c.back_edge_pct) || block_fwd.is_empty() { *r.pick(&block_all) } else { *r.pick(&block_fwd) };
+                    tainted[d as usize] = true;
+                    Op::Call { d, n: t }
+                }
+                20..=39 if !in_block && i >= hi && nk > 0 => {
+                    tainted[d as usize] = true;
+                    Op::Call { d, n: *r.pick(&block_all) }
+                }
+                40..=54 if !lower.is_empty() => {
+                    // calls to nodes below: plain values, but keep them tainted-safe (no effect)
+                    Op::Call { d, n: *r.pick(&lower) }
+                }
+                55..=74 => {
+                    let (a, b) = (r.usize(NREG) as u8, r.usize(NREG) as u8);
+                    let t = tainted[a as usize] || tainted[b as usize];
+                    let o = if t || in_block { *r.pick(&[AOp::Or, AOp::And]) } else { *r.pick(&[AOp::Or, AOp::And, AOp::Xor, AOp::Add]) };
+                    if t {
+                        tainted[d as usize] = true;
+                    }
+                    Op::Arith { d, a, b, o }
+                }
+                75..=82 if !untainted.is_empty() => Op::IfSkip { s: *r.pick(&untainted), c: *r.pick(&[Cmp::Lt, Cmp::Eq, Cmp::Ne, Cmp::Ge]), k: r.below(m as u64) as u32, n: r.range(1, 2) as u8 },
+                83..=88 if in_block && !untainted.is_empty() && block_all.len() >= 2 => {
+                    tainted[d as usize] = true;
+                    Op::CallDyn { d, s: *r.pick(&untainted), t: (0..2).map(|_| *r.pick(&block_all)).collect() }
+                }
+                89..=91 if c.untracked_in_block && in_block && !tainted[d as usize] => Op::Untracked { d, c: 0 },
+                92..=93 if c.yields => Op::Yield,
+                _ => Op::Const { d, c: r.below(m as u64) as u32 },
+            };
+            // a register overwritten by an untainted op stays conservatively tainted
+            ops.push(op);
+        }
+        if i == bad_node {
+            // guarded non-monotone step on a (likely tainted) register
+            let (gi, gf, _) = bad_guard.unwrap();
+            let g = 3u8;
+            // padding: forward skips of the random prefix must not land inside the guarded pattern
+            ops.push(Op::Const { d: 1, c: 0 });
+            ops.push(Op::Const { d: 1, c: 0 });
+            ops.push(Op::Call { d: 0, n: *r.pick(&block_all) });
+            ops.push(Op::In { d: g, i: gi, f: gf });
+            ops.push(Op::IfSkip { s: g, c: Cmp::Eq, k: 0, n: 2 });
+            ops.push(Op::Const { d: 1, c: 1 });
+            ops.push(Op::Arith { d: 0, a: 0, b: 1, o: AOp::Add });
+            ops.push(Op::Ret { s: 0 });
+        } else if r.pct(70) {
+            // prefer returning a tainted register so cycles carry information
+            let ts: Vec<u8> = (0..NREG as u8).filter(|x| tainted[*x as usize]).collect();
+            let s = if !ts.is_empty() && r.pct(80) { *r.pick(&ts) } else { r.usize(NREG) as u8 };
+            ops.push(Op::Ret { s });
+        }
+        nodes.push(Node { kind, ops });
+    }
+    Program { m, n_inputs, n_cells, nodes, fb_base: 100, blk_lo: lo as u16, blk_hi: hi as u16, bad_guard }
 }
